@@ -1,5 +1,6 @@
 import BFL.Driver.Proto
 import BFL.Model.History
+import BFL.Model.HistorySpec
 import BFL.Model.Extract
 /-
 Driver entries for C17 (estimate extraction and its history buffer).
@@ -15,6 +16,9 @@ Driver entries for C17 (estimate extraction and its history buffer).
              | Y <N> <K> particles weights(N) prev_weights(K) likelihoods(N) transition(cm, N×K)
      -> per call, separated by `|`:  `<tag> <flag> <window> <method> [est…] [t:… branch tags] [v:… map values]`
         (window and method of the current object after the call)
+
+  hbs <dim> <nops> {op}       the same operation sequences on the SPECIFICATION `HistSpec` (append-only log + counter;
+                              `BFL.C17.buffer_refines_spec`): same output format, flags always 1
 
   eew <k>                     the three weight vectors for history length k (Float), for the weight oracle
 -/
@@ -79,6 +83,31 @@ def hb : R String := do
       let f := hbFlag (p.get cur) o
       p := HistBuf.step2 p (.on cur o)
       outs := outs.push (join [t, if f then "1" else "0", toString (p.get cur).window])
+  pure (" | ".intercalate outs.toList)
+
+/-- the specification machine `HistSpec` on the same operation sequences -/
+def hbs : R String := do
+  let dim ← nat; let n ← nat
+  let ops ← hbOps dim n
+  done
+  let mut p : HistSpec.Pair (List String) := ⟨HistSpec.init, HistSpec.init⟩
+  let mut cur : Bool := false
+  let mut outs : Array String := #[]
+  for (t, op) in ops do
+    match op with
+    | none =>
+      if t == "G" then
+        let v := (p.get cur).view
+        outs := outs.push (join (["G", toString v.length] ++ v.flatten))
+      else
+        if t == "T" then cur := !cur
+        else if t == "K" then p := HistSpec.step2 p (.moveCtor cur)
+        else if t == "Q" then p := HistSpec.step2 p (.moveAssign cur (!cur))
+        else p := HistSpec.step2 p (.moveAssign cur cur)
+        outs := outs.push (join [t, "1", toString (p.get cur).window])
+    | some o =>
+      p := HistSpec.step2 p (.on cur o)
+      outs := outs.push (join [t, "1", toString (p.get cur).window])
   pure (" | ".intercalate outs.toList)
 
 /-! ### EstimatesExtraction -/
@@ -211,6 +240,7 @@ def eew : R String := do
 def handle (op : String) (args : List String) : Option String :=
   match op with
   | "hb" => some ((run hb args).getD "bad-args")
+  | "hbs" => some ((run hbs args).getD "bad-args")
   | "ee" => some ((run ee args).getD "bad-args")
   | "eew" => some ((run eew args).getD "bad-args")
   | _ => none
